@@ -115,8 +115,8 @@ RMIN = 0.02
 
 @st.composite
 def _strategy(draw, tier):
-    pick = draw(st.sampled_from(['flat'] * 7 + ['power'] * 2 +
-                                ['product', 'field', 'matrix']))
+    pick = draw(st.sampled_from(['flat'] * 14 + ['power'] * 5 +
+                                ['product'] * 2 + ['field', 'matrix']))
     dtypes = ('float64',) * 7 + ('float32',)
     if pick == 'flat':
         sd = draw(Z.flat_space_descs(max_size=6, dtypes=dtypes))
@@ -138,6 +138,7 @@ def _strategy(draw, tier):
             draw(st.integers(0, 2)) == 0:
         fd = dict(fd, numgrad=True)
     return {'space': sd, 'func': fd,
+            'probe_known': draw(st.integers(0, 3)) == 0,
             'x': draw(Z.vec(n, Z.nz_values())),
             'd': draw(Z.vec(n)),
             'z': draw(Z.vec(n, Z.nz_values())),
@@ -252,12 +253,39 @@ def run_case(desc):
     draw_ = np.asarray(desc['d'], float)
     zraw = np.asarray(desc['z'], float)
     out = None
+    probe = bool(desc.get('probe_known', False))
     for node, npts in _post_order(B, (xraw, draw_, zraw)):
         top = node is B
-        res = _guarded(node, npts, top, fd if top else {'cls': node.cls})
+        res = _guarded(node, npts, top, fd if top else {'cls': node.cls},
+                       probe)
+        if res.status == 'excluded' and not top:
+            return Outcome('excluded', strata=res.strata)
         if top:
             out = res
     return out
+
+
+def known_region(B):
+    """Id of the known finding whose region contains this functional (the
+    predicate mirrors the signature patterns of known_findings.d/C09.json).
+    Such cases are excluded unless the descriptor asks to probe them
+    (``probe_known``: one generated case in four and every regress replay).
+    """
+    for b in B.nodes():
+        r = b.region
+        if 'same=0' in r.get('matop', ''):
+            return 'C09-K1'
+        if b.cls == 'QuadraticForm' and (
+                'matrix-warray' in r.get('qop', '') or
+                'matrix-wdiscr-bdry' in r.get('qop', '')):
+            return 'C09-K1'
+        if r.get('gradop') == 'bdry=1':
+            return 'C09-K2'
+        if 'array' in r.get('huber', ''):
+            return 'C09-K3'
+        if r.get('group', '').endswith('-barray'):
+            return 'C09-K3'
+    return None
 
 
 def _fit(v, m):
@@ -301,10 +329,10 @@ def _post_order(B, pts):
     yield B, pts
 
 
-def _guarded(B, pts, top, fd):
+def _guarded(B, pts, top, fd, probe):
     ctx = {}
     try:
-        return _check_node(B, pts, top, fd, ctx)
+        return _check_node(B, pts, top, fd, ctx, probe)
     except (Violation, HarnessError):
         raise
     except Exception as e:  # noqa
@@ -319,7 +347,7 @@ def _guarded(B, pts, top, fd):
             ctx['who'], ctx['region'], csig.split('|', 2)[2]), tb[-1200:])
 
 
-def _check_node(B, pts, top, fd, ctx):
+def _check_node(B, pts, top, fd, ctx, probe=True):
     sd, space = B.sd, B.space
     xraw, draw_, zraw = pts
     f, ref, geo = B.f, B.ref, B.geo
@@ -368,6 +396,12 @@ def _check_node(B, pts, top, fd, ctx):
 
     def norm(a):
         return float(flat.snorm(space, a))
+
+    kr = known_region(B)
+    if kr is not None:
+        strata.append('known-region:' + kr)
+        if not probe:
+            return Outcome('excluded', strata=strata + ['excluded:' + kr])
 
     # ---- the gradient operator ---------------------------------------------
     expect_nie = (B.cls == 'LpNorm' and ref.p not in (1.0, 2.0)) or \
@@ -506,19 +540,24 @@ def _check_node(B, pts, top, fd, ctx):
             note('fd_order_test_failed')
 
     # ---- (2) derivative(x)(d) ----------------------------------------------
-    try:
-        D = f.derivative(xe)
-    except Exception as e:  # noqa
-        if sk == 'field':
-            raise Violation(sig('derivative-crash'),
-                            'derivative(x) raises {}: {}'.format(
-                                type(e).__name__, str(e)[:100]))
-        raise
-    dv = _fval(D(de))
-    hit('derivative')
+    D = None
+    if sk == 'field' and not probe:
+        strata.append('excluded:C09-K4')
+    else:
+        try:
+            D = f.derivative(xe)
+        except Exception as e:  # noqa
+            if sk == 'field':
+                raise Violation(sig('derivative-crash'),
+                                'derivative(x) raises {}: {}'.format(
+                                    type(e).__name__, str(e)[:100]))
+            raise
+    if D is not None:
+        dv = _fval(D(de))
+        hit('derivative')
     t = 64 * eps * max(n, 1) * (abs(g) + float(np.sum(geo.w * np.abs(gf) *
                                                       np.abs(df))))
-    if not abs(dv - g) <= t:
+    if D is not None and not abs(dv - g) <= t:
         raise Violation(
             sig('derivative'),
             'derivative(x)(d) = {!r} but <gradient(x), d> = {!r} (tol '
@@ -597,7 +636,10 @@ def _check_node(B, pts, top, fd, ctx):
     if top and fd.get('numgrad') and not B.children and reliable and \
             n <= 6 and not f32 and sd['kind'] in ('tensor', 'discr'):
         step = 1e-4 * (1.0 + float(np.max(np.abs(xf))))
-        if 0.5 * step < 0.25 * rad:
+        ng_known = Z.wcoarse(sd) != 'none' or len(space.shape) > 1
+        if ng_known and not probe:
+            strata.append('excluded:C09-K5/K6')
+        elif 0.5 * step < 0.25 * rad:
             NG = S.NumericalGradient(f, method='central', step=step)
             try:
                 nge = NG(xe)
